@@ -163,7 +163,18 @@ def rule_R16_1(ctx):
             deleg = delegated_table(prog, f, pt, op, lhs_p, rhs_p)
             if deleg is not None:
                 g, gacc, in_order = deleg
-                acc = acc & gacc
+                # cells that build their value in this function itself (not
+                # through the helper) are accepted whatever the helper says
+                def built_here(bb_):
+                    return any(a_ == VALUE for (a_, v_) in ops.block_constructs(prog, f, bb_))
+                direct = set()
+                if len(acc) == 64:
+                    for a_ in KINDS:
+                        for b_ in KINDS:
+                            if any(built_here(bb_) and len({t[1:] for t in pt.vf.at(bb_) if t[0] == op}) < 64
+                                   for bb_ in pt.vf.blocks_for((op, a_, b_))):
+                                direct.add((a_, b_))
+                acc = (acc & gacc) | direct
                 if not in_order:
                     r.fail("%s | op=%s delegate-operand-order" % (f.path, op),
                            "operands are handed to %s in swapped order" % g.path)
